@@ -26,6 +26,10 @@ func main() {
 		probe()
 		return
 	}
+	if len(os.Args) > 1 && os.Args[1] == "racerun" {
+		raceRun()
+		return
+	}
 	vh.Main()
 }
 
@@ -129,15 +133,24 @@ func coqStep(st Step) string {
 			return vcoq.App("Ret", vcoq.App("RetPlain", vcoq.Int(st.Msg)))
 		}
 		return vcoq.App("Ret", vcoq.App("RetStatus", vcoq.Int(st.Code), vcoq.Int(st.Msg)))
+	case "Cancel", "CtxEnd":
+		return vcoq.App(st.K, vcoq.Bool(st.DL))
 	}
-	return st.K // CloseSend RecvEOF CHeader Cancel
+	return st.K // CloseSend RecvEOF CHeader
 }
 func coqScenario(sc Scenario) string {
 	it := make([]string, len(sc.Steps))
 	for i, st := range sc.Steps {
 		it[i] = coqStep(st)
 	}
-	return vcoq.App("mkScn", coqShape(sc.Shape), vcoq.Int(sc.Req), vcoq.Bool(sc.PreCancel), vcoq.List(it))
+	pre := "CtxLive"
+	if sc.PreCancel {
+		pre = "CtxCanceled"
+		if sc.PreDL {
+			pre = "CtxExpired"
+		}
+	}
+	return vcoq.App("mkScn", coqShape(sc.Shape), vcoq.Int(sc.Req), coqMD(sc.OMD), pre, vcoq.List(it))
 }
 func coqOutcome(o *Outcome) string {
 	switch o.Class {
@@ -178,7 +191,7 @@ func coqTranscript(t Transcript, stuck bool) string {
 	for _, o := range t.Server {
 		switch o.K {
 		case "entered":
-			s = append(s, vcoq.App("SEntered", vcoq.Int(o.M)))
+			s = append(s, vcoq.App("SEntered", vcoq.Int(o.M)), vcoq.App("SIncoming", coqMD(o.MD)))
 		case "got":
 			s = append(s, vcoq.App("SGot", vcoq.Int(o.M)))
 		case "eof":
@@ -222,6 +235,26 @@ func genRet(r *vcoq.Rand, okPct int) Step {
 		return Step{K: "Ret", Plain: true, Msg: r.Range(0, 9)}
 	}
 	return Step{K: "Ret", Code: r.Range(1, 16), Msg: r.Range(0, 9)}
+}
+
+// request metadata: mostly none or one pair; sometimes several values under one key, every key
+func genOMD(r *vcoq.Rand) [][2]int {
+	switch r.Intn(10) {
+	case 0, 1, 2, 3:
+		return nil
+	case 4, 5, 6:
+		return [][2]int{{r.Intn(nKeys), r.Range(1, 9)}}
+	case 7:
+		k := r.Intn(nKeys)
+		return [][2]int{{k, r.Range(1, 9)}, {k, r.Range(1, 9)}}
+	case 8:
+		return [][2]int{{2, r.Range(1, 9)}, {0, r.Range(1, 9)}, {1, r.Range(1, 9)}}
+	}
+	md := [][2]int{}
+	for i, n := 0, r.Range(2, 4); i < n; i++ {
+		md = append(md, [2]int{r.Intn(nKeys), r.Range(0, 9)})
+	}
+	return md
 }
 
 type genState struct {
@@ -276,9 +309,43 @@ func (g *genState) pick(r *vcoq.Rand) (Step, bool) {
 	return Step{}, false
 }
 
+// what a handler may still do once the client's context has ended, up to its return
+func (g *genState) afterEnd(r *vcoq.Rand, dl bool) []Step {
+	out := []Step{{K: "CtxEnd", DL: dl}}
+	for i, n := 0, r.Range(0, 3); i < n; i++ {
+		switch r.Intn(6) {
+		case 0:
+			out = append(out, Step{K: "SetH", MD: genMD(r)})
+		case 1:
+			if g.sent || r.Chance(35) { // unsent headers sent now: recorded class 4
+				out = append(out, Step{K: "SendH", MD: genMD(r)})
+				g.sent = true
+			}
+		case 2:
+			md := [][2]int{}
+			if r.Chance(25) { // recorded class 1
+				md = genMD(r)
+			}
+			out = append(out, Step{K: "SetT", MD: md})
+		case 3, 4:
+			if srvHasStream(g.shape) {
+				out = append(out, Step{K: "S2C", M: r.Range(1, 99)})
+			}
+		case 5:
+			if srvHasStream(g.shape) && !g.half {
+				out = append(out, Step{K: "RecvEOF"})
+			}
+		}
+	}
+	return append(out, genRet(r, 50))
+}
+
 func (g *genState) ending(r *vcoq.Rand) []Step {
+	if r.Chance(12) && !g.infl {
+		return g.afterEnd(r, r.Chance(40))
+	}
 	if r.Chance(22) && !g.infl {
-		return []Step{{K: "Cancel"}}
+		return []Step{{K: "Cancel", DL: r.Chance(40)}}
 	}
 	if g.shape == "clientStream" && r.Chance(75) {
 		return []Step{{K: "S2C", M: r.Range(1, 99)}, genRet(r, 85)}
@@ -291,8 +358,10 @@ func genRandom(r *vcoq.Rand, shape string) Scenario {
 	if clientStreams(shape) {
 		sc.Req = 0
 	}
+	sc.OMD = genOMD(r)
 	if r.Chance(3) {
 		sc.PreCancel = true
+		sc.PreDL = r.Chance(50)
 		sc.Steps = []Step{}
 		return sc
 	}
@@ -310,7 +379,7 @@ func genRandom(r *vcoq.Rand, shape string) Scenario {
 // systematic: n messages, one event at each position
 func genSystematic(r *vcoq.Rand) []Scenario {
 	var out []Scenario
-	events := []string{"SetH", "SendH", "SetT", "RetErr", "Cancel", "CloseSend", "SetH+SetH", "SendH+SetH", "CHeader"}
+	events := []string{"SetH", "SendH", "SetT", "RetErr", "Cancel", "Deadline", "CloseSend", "SetH+SetH", "SendH+SetH", "CHeader", "CtxEnd", "SendH+CHeader"}
 	for _, shape := range shapes {
 		maxN := 5
 		if !srvHasStream(shape) {
@@ -321,6 +390,9 @@ func genSystematic(r *vcoq.Rand) []Scenario {
 				for _, ev := range events {
 					g := &genState{shape: shape, half: autoRecv(shape)}
 					sc := Scenario{Shape: shape, Req: r.Range(1, 99), Steps: []Step{}}
+					if r.Chance(35) {
+						sc.OMD = genOMD(r)
+					}
 					if clientStreams(shape) {
 						sc.Req = 0
 					}
@@ -350,6 +422,12 @@ func genSystematic(r *vcoq.Rand) []Scenario {
 						sc.Steps = append(sc.Steps, Step{K: ev, MD: genMD(r)})
 					case "SetH+SetH":
 						sc.Steps = append(sc.Steps, Step{K: "SetH", MD: [][2]int{{0, r.Range(1, 9)}}}, Step{K: "SetH", MD: [][2]int{{r.Intn(2), r.Range(1, 9)}}})
+					case "SendH+CHeader":
+						if shape == "unary" {
+							continue
+						}
+						g.sent, g.infl = true, false
+						sc.Steps = append(sc.Steps, Step{K: "SendH", MD: genMD(r)}, Step{K: "CHeader"})
 					case "SendH+SetH":
 						g.infl = g.infl || !g.sent
 						g.sent = true
@@ -357,11 +435,23 @@ func genSystematic(r *vcoq.Rand) []Scenario {
 					case "RetErr":
 						sc.Steps = append(sc.Steps, genRet(r, 0))
 						terminal = true
-					case "Cancel":
+					case "Cancel", "Deadline":
 						if g.infl {
 							continue
 						}
-						sc.Steps = append(sc.Steps, Step{K: "Cancel"})
+						if r.Chance(40) { // after the handler set something that must then not show
+							sc.Steps = append(sc.Steps, Step{K: "SetH", MD: [][2]int{{r.Intn(nKeys), r.Range(1, 9)}}})
+						}
+						sc.Steps = append(sc.Steps, Step{K: "Cancel", DL: ev == "Deadline"})
+						terminal = true
+					case "CtxEnd":
+						if g.infl {
+							continue
+						}
+						if r.Chance(40) { // headers pending at the end: they must never show
+							sc.Steps = append(sc.Steps, Step{K: "SetH", MD: [][2]int{{r.Intn(nKeys), r.Range(1, 9)}}})
+						}
+						sc.Steps = append(sc.Steps, g.afterEnd(r, r.Bool())...)
 						terminal = true
 					case "CloseSend":
 						if !clientStreams(shape) {
@@ -403,8 +493,20 @@ func decorate(r *vcoq.Rand, sc *Scenario) {
 	sc.CMut = r.Chance(50)
 	var last [][2]int
 	has := false
+	latched := false
 	for i := range sc.Steps {
 		st := &sc.Steps[i]
+		switch st.K {
+		case "S2C":
+			latched = true
+		case "CtxEnd", "Cancel":
+			latched = true // nothing is "early" any more
+		case "SendH":
+			if !latched && i+1 < len(sc.Steps) && sc.Steps[i+1].K == "CHeader" && r.Chance(70) {
+				sc.Steps[i+1].Early = true // the client waits in Header() for these headers
+			}
+			latched = true
+		}
 		if st.K != "SetH" && st.K != "SendH" && st.K != "SetT" {
 			continue
 		}
@@ -438,7 +540,17 @@ func tagsOf(sc Scenario) []string {
 			break
 		}
 	}
+	for _, st := range sc.Steps {
+		if st.Early {
+			tags = append(tags, "client-blocked-in-Header()")
+			break
+		}
+	}
+	tags = append(tags, fmt.Sprintf("request-metadata:%d", len(sc.OMD)))
 	if sc.PreCancel {
+		if sc.PreDL {
+			return append(tags, "pre-expired-deadline")
+		}
 		return append(tags, "precancel")
 	}
 	nm := 0
@@ -448,6 +560,12 @@ func tagsOf(sc Scenario) []string {
 			nm++
 		}
 		k := st.K
+		if st.K == "Cancel" && st.DL {
+			k = "Deadline"
+		}
+		if st.K == "CtxEnd" && st.DL {
+			k = "CtxEnd-deadline"
+		}
 		if st.K == "Ret" {
 			switch {
 			case st.Ok:
@@ -492,6 +610,16 @@ func genC13(o *vcoq.Out, r *vcoq.Rand, tier string) error {
 	for i := 0; i < nRandom; i++ {
 		scs = append(scs, genRandom(r, shapes[i%len(shapes)]))
 	}
+	// a call on a context that has already ended, both ways of ending, every shape
+	for _, shape := range shapes {
+		for _, dl := range []bool{false, true} {
+			sc := Scenario{Shape: shape, Req: r.Range(1, 99), PreCancel: true, PreDL: dl, Steps: []Step{}, OMD: genOMD(r)}
+			if clientStreams(shape) {
+				sc.Req = 0
+			}
+			scs = append(scs, sc)
+		}
+	}
 
 	for i := range scs {
 		if i%4 != 0 { // a quarter of the scenarios stays plain
@@ -499,6 +627,13 @@ func genC13(o *vcoq.Out, r *vcoq.Rand, tier string) error {
 		}
 	}
 	leaks, nStuck := 0, 0
+	branchesHit := map[string]int{}
+	nGuard := 0
+	for _, sc := range scs {
+		if inFragment(sc) {
+			nGuard++
+		}
+	}
 	for _, sc := range scs {
 		if nStuck >= 5 {
 			o.Directs = append(o.Directs, vcoq.Direct{What: "calls keep getting stuck (a step did not complete within its time limit); the run was cut short",
@@ -535,21 +670,31 @@ func genC13(o *vcoq.Out, r *vcoq.Rand, tier string) error {
 			JSON:       map[string]any{"kind": "call", "scenario": sc, "wrap": tw, "grpc": tg},
 			Key:        string(key),
 			NonTrivial: len(sc.Steps) >= 2,
-			Tags:       tagsOf(sc),
+			Tags:       append(tagsOf(sc), branchTags(sc, tw)...),
 		})
+		for _, b := range branchTags(sc, tw) {
+			branchesHit[b]++
+		}
 	}
 	if len(w.srv.stray)+len(g.srv.stray) > 0 {
 		o.Directs = append(o.Directs, vcoq.Direct{What: "a handler was entered without the call id the client attached to its outgoing metadata",
 			Class: "metadata-lost", Replay: map[string]any{"wrap": w.srv.stray, "grpc": g.srv.stray}})
 	}
 	lookupCases(o, w, g)
+	misuseCases(o, w, g)
+	callerIncomingCases(o)
+	unwrapCases(o, r)
+	sendThenModifyCases(o, r, nIsoSend(tier))
+	o.Extra["model_branch_classes_hit"] = len(branchesHit)
 	nIso := 200
 	if tier == "thorough" {
 		nIso = 4000
 	}
 	isolationCases(o, r, nIso)
 	abandonCases(o)
-	o.Extra["coverage_extra"] = map[string]any{"transports": []string{"wrap.ServerToClient", "grpc.Server over bufconn"}, "goroutine_checks": len(scs), "deep_isolation_checks": nIso}
+	o.Extra["coverage_extra"] = map[string]any{"transports": []string{"wrap.ServerToClient", "grpc.Server over bufconn"}, "goroutine_checks": len(scs), "deep_isolation_checks": nIso,
+		"send_then_modify_checks": 4 * nIsoSend(tier), "model_branch_classes_hit": len(branchesHit), "client_misuse_cases": 2, "unwrap_cases": 14,
+		"guard_pass_rate": fmt.Sprintf("%d of %d call scenarios satisfy the theorems' guard wf (Go replica of C13Judge.wf; the generator stays inside the fragment by construction)", nGuard, len(scs))}
 	return nil
 }
 
@@ -669,6 +814,21 @@ func abandonCases(o *vcoq.Out) {
 			return wait(ctl.res, "server RecvMsg")
 		}},
 	}
+	// outside the premise (the second send has no receiver): a client-streaming handler sends a second
+	// response; the client's single RecvMsg has returned; the handler must come back when the client cancels
+	variants = append(variants, variant{"second response on a client-streaming method, nobody receiving", "clientStream",
+		func(ctx context.Context, cancel func(), cc grpc.ClientConnInterface, ctl *callCtl) string {
+			ctl.cmd <- srvCmd{k: "send", m: 1}
+			select {
+			case <-ctl.res:
+			case <-time.After(stepTimeout):
+				return "the first response was not taken"
+			}
+			ctl.cmd <- srvCmd{k: "send", m: 2}
+			time.Sleep(300 * time.Microsecond)
+			cancel()
+			return wait(ctl.res, "server SendMsg (second response)")
+		}})
 	for _, v := range variants {
 		w := newWrapTransport()
 		callSeq++
@@ -684,6 +844,9 @@ func abandonCases(o *vcoq.Out) {
 		} else {
 			if autoRecv(v.shape) {
 				go func() { _ = st.SendMsg(mkReq(v.shape, 1)); _ = st.CloseSend() }()
+			}
+			if v.shape == "clientStream" {
+				go func() { _ = st.RecvMsg(newResp(v.shape)) }() // the client's single receive
 			}
 			select {
 			case <-ctl.entered:
@@ -707,4 +870,46 @@ func abandonCases(o *vcoq.Out) {
 				Class: "goroutine-left", Replay: map[string]any{"variant": v.name, "shape": v.shape}})
 		}
 	}
+}
+
+func nIsoSend(tier string) int {
+	if tier == "thorough" {
+		return 400
+	}
+	return 40
+}
+
+// raceRun (binary built with -race): generated scenarios through the wrapper only, plus raw-stream
+// transfers whose sender reuses its message at once; the race detector reports on stderr.
+func raceRun() {
+	seed := uint64(1)
+	if len(os.Args) > 2 {
+		fmt.Sscan(os.Args[2], &seed)
+	}
+	r := vcoq.NewRand(seed)
+	w := newWrapTransport()
+	scs := genSystematic(r)
+	for i := 0; i < 300; i++ {
+		scs = append(scs, genRandom(r, shapes[i%len(shapes)]))
+	}
+	for i := range scs {
+		if i%4 != 0 {
+			decorate(r, &scs[i])
+		}
+	}
+	stuck := 0
+	for _, sc := range scs {
+		tr := runScenario(sc, w.srv, w.cc)
+		for _, n := range tr.Notes {
+			if len(n) < 8 || n[:8] != "aliasing" {
+				stuck++
+			}
+		}
+		if stuck > 3 {
+			break
+		}
+	}
+	o := &vcoq.Out{Extra: map[string]any{}}
+	sendThenModifyCases(o, r, 20)
+	fmt.Println("racerun scenarios", len(scs))
 }
